@@ -53,12 +53,15 @@ def run(m, tier="quick", props=None):
                         time.time() - t0, "; ".join(v[12:100] for v in viol[:3]) or r.stderr[-200:]))
         return res
     finally:
+        # drop the numba cache that belongs to the mutant tree, then the tree itself
+        try:
+            sys.path.insert(0, HERE)
+            from vf.env import tree_hash
+
+            shutil.rmtree(os.path.join(HERE, ".cache", "numba-" + tree_hash(tmp)), ignore_errors=True)
+        except Exception:
+            pass
         shutil.rmtree(tmp, ignore_errors=True)
-        # drop the numba cache of the mutant tree
-        cache = os.path.join(HERE, ".cache")
-        ds = sorted(glob.glob(os.path.join(cache, "numba-*")), key=os.path.getmtime, reverse=True)
-        for d in ds[4:]:
-            shutil.rmtree(d, ignore_errors=True)
 
 
 def main(argv):
